@@ -19,9 +19,7 @@ RULES = {
 CACHE_CLASSES = ["dns.resolver.CacheBase", "dns.resolver.Cache", "dns.resolver.LRUCache"]
 GUARDED = {"data", "statistics", "next_cleaning", "sentinel"}
 # confirmed exception: one attribute store, no compound invariant involved
-UNLOCKED_OK = {
-    ("dns.resolver.LRUCache.set_max_size", "max_size"): "single attribute store of an int; readers take it under the lock",
-}
+UNLOCKED_OK = {}
 LOCK = "self.lock"
 
 
@@ -84,6 +82,12 @@ def run(model, rep, tier):
                 rep.excepted("R-17.1", qn, a.where, ex, stmt=f"self.{a.field}")
             else:
                 rep.bad("R-17.1", qn, a.where, f"self.{a.field} {'written' if a.store else 'read'} outside `with self.lock`", stmt=f"self.{a.field}")
+        locked_public = {m_ for k in classes for m_, g in k.methods.items() if not m_.startswith("_") and "with self.lock" in src(g.node)}
+        pub_calls = [c for (cn, c) in calls_with_nodes(cfg) if isinstance(c.func, ast.Attribute) and isinstance(c.func.value, ast.Name) and c.func.value.id == "self" and c.func.attr in locked_public]
+        if pub_calls:
+            rep.check(len(pub_calls) + len(lock_blocks) <= 1, "R-17.1", qn, where(fi, pub_calls[0]), f"delegates to one atomic operation (`{src(pub_calls[0].func)}`)",
+                      f"the operation is composed of {len(pub_calls)} separately locked calls ({', '.join(sorted({src(c.func) for c in pub_calls}))})" + (f" and {len(lock_blocks)} own critical section(s)" if lock_blocks else "") +
+                      ": another thread can run between them, so the result corresponds to no single moment (e.g. a statistics snapshot with misses from after and hits from before a lookup)", stmt="one-critical-section")
         if (accs or n_helper_calls) and not unlocked:
             rep.check(len(lock_blocks) == 1, "R-17.1", qn, where(fi, fi.node),
                       f"{len(accs)} accesses in one critical section",
@@ -171,6 +175,27 @@ def run(model, rep, tier):
                     rep.check(LOCK in with_exprs(n), "R-17.2", qn, where(fi, e), "clock read inside the critical section",
                               "clock read outside the critical section (a stale `now` can outlive an expiry)", stmt="time.time()")
     rep.floor("R-17.2", n_ret, 3)
+    # every other comparison of an entry's expiration (the periodic sweep): against the current time read in the same operation, expired iff `expiration <= now`
+    n_sweep = 0
+    for ci in classes:
+        for name, fs in sorted(ci.methods.items()):
+            if fs.qualname in getters:
+                continue
+            times = _time_exprs(fs)
+            for n in ast.walk(fs.node):
+                if not isinstance(n, (ast.If, ast.While, ast.IfExp)):
+                    continue
+                for (lhs, op, rhs) in atoms(normalise_compare(n.test)):
+                    if rhs.endswith(".expiration") and not lhs.endswith(".expiration"):
+                        lhs, rhs = rhs, lhs
+                        op = {"<": ">", "<=": ">=", ">": "<", ">=": "<="}.get(op, op)
+                    if not lhs.endswith(".expiration"):
+                        continue
+                    n_sweep += 1
+                    rep.check(rhs in times and op in ("<=", ">"), "R-17.2", fs.qualname, where(fs, n), f"`{lhs} {op} {rhs}`: an entry is swept exactly when it has expired",
+                              f"the sweep compares `{lhs} {op} {rhs}`" + ("" if rhs in times else f": `{rhs}` is not the current time read in this operation, so entries that are still valid are deleted (a spurious miss) or expired ones kept"),
+                              stmt="sweep-expiration")
+    rep.floor("R-17.2-sweep", n_sweep, 1)
 
     for qn in ["dns.resolver.Cache.get", "dns.resolver.LRUCache.get"]:
         fi = model.func(qn)
@@ -199,6 +224,30 @@ def run(model, rep, tier):
             rep.check(okk, "R-17.3", qn, where(fi, ret or fi.node), f"{desc}: hits+={hits} misses+={misses} returns_value={returns_value}",
                       f"{desc}: hits+={hits} misses+={misses} returns_value={returns_value} (must be exactly one counter, hits iff a value is returned)",
                       stmt=pkey)
+    # ------------------------------------------------------------------ R-17.4 (resize)
+    n_resize = 0
+    lru = model.cls("dns.resolver.LRUCache")
+    for m in sorted((g for g in model.all_functions() if g.cls is lru and g.name != "__init__"), key=lambda g: g.qualname):
+        stores = [n for n in ast.walk(m.node) if isinstance(n, (ast.Assign, ast.AugAssign)) and any(src(t) == "self.max_size" for t in (n.targets if isinstance(n, ast.Assign) else [n.target]))]
+        if not stores:
+            continue
+        cm = CFG(m.node, implicit_exc=False)
+        shrink = []
+        for n in cm.nodes:
+            if n.kind == "test" and isinstance(n.ast, ast.While):
+                for (lhs, op, rhs) in atoms(normalise_compare(n.ast.test)):
+                    if (lhs, rhs) == ("len(self.data)", "self.max_size") and op in (">", ">="):
+                        shrink.append(n)
+        for st in stores:
+            n_resize += 1
+            sn = [n.id for n in cm.stmts() if n.ast is st]
+            r = cm.reachable(sn, blocked_edges={(l_.id, "f") for l_ in shrink})
+            okk = bool(shrink) and cm.exit.id not in r
+            tail = all(any(isinstance(b, ast.Assign) and src(b.value) == "self.sentinel.prev" for b in l_.ast.body) for l_ in shrink)
+            rep.check(okk and tail, "R-17.4", m.qualname, where(m, st), "a new limit is enforced at once: the store is followed by `while len(data) > max_size` evicting from the cold end",
+                      "the limit is changed without evicting down to it: after a shrink the cache holds more entries than its limit until some later put()" if not okk else
+                      "the shrink loop does not take its victims from the cold end (self.sentinel.prev)", stmt="resize-evicts")
+    rep.floor("R-17.4-resize", n_resize, 1)
     # ------------------------------------------------------------------ R-17.4
     fi = model.func("dns.resolver.LRUCache.put")
     cfg = CFG(fi.node, implicit_exc=False)
@@ -322,6 +371,13 @@ def _unlinked_before(fi, del_stmt, owner):
 
 
 WITNESSES = [
+    {"id": "c17-resize-without-eviction", "rule": "R-17.4", "file": "dns/resolver.py", "expect": "fires",
+     "old": "            self.max_size = max_size\n            while len(self.data) > self.max_size:\n                gnode = self.sentinel.prev\n                gnode.unlink()\n                del self.data[gnode.key]\n",
+     "new": "            self.max_size = max_size\n"},
+    {"id": "c17-snapshot-two-lock-holds", "rule": "R-17.1", "file": "dns/resolver.py", "expect": "fires",
+     "old": "        with self.lock:\n            return self.statistics.clone()", "new": "        return CacheStatistics(self.hits(), self.misses())"},
+    {"id": "c17-sweep-against-next-cleaning", "rule": "R-17.2", "file": "dns/resolver.py", "expect": "fires",
+     "old": "                if v.expiration <= now:\n                    keys_to_delete.append(k)", "new": "                if v.expiration <= self.next_cleaning:\n                    keys_to_delete.append(k)"},
     {"id": "c17-min-ttl-overwritten", "rule": "R-17.5", "file": "dns/message.py", "expect": "fires",
      "old": "                min_ttl = min(min_ttl, answer.ttl)", "new": "                min_ttl = answer.ttl"},
     {"id": "c17-flush-key-without-unlink", "rule": "R-17.4", "file": "dns/resolver.py", "expect": "fires",
